@@ -335,7 +335,8 @@ def kind_fn(c, o):
         if len(w) != 4:
             return "acl:" + w[0][:5]
         b = w[2]
-        return "acl:" + ("all-match" if "0" not in b else "none-match" if "1" not in b else "mixed")
+        frac = b.count("1") / max(len(b), 1)
+        return "acl:hosts-matched-" + ("0%" if frac == 0 else "<25%" if frac < 0.25 else "25-75%" if frac <= 0.75 else ">75%")
     if op in ("mdn", "cmp"):
         return op + ":" + ("0" if o == "0" else "neg" if o.startswith("-") else "pos")
     if op == "sub":
